@@ -77,6 +77,21 @@ Theorem C18_command_spelling_independent :
 Proof. exact command_spelling_independent. Qed.
 Print Assumptions C18_command_spelling_independent.
 
+(* The atom spelling is admitted for the implementation's astring class, which
+   is the RFC's ASTRING-CHAR class minus the closing brace ... *)
+Theorem C18_astring_char_rfc : forall c, c <> RBRACE -> astring_char c = rfc_astring_char c.
+Proof. exact astring_char_rfc. Qed.
+Print Assumptions C18_astring_char_rfc.
+
+(* ... and for that one byte the statement is refuted (open finding C18-F3):
+   an RFC-legal atom is refused while its quoted spelling is accepted *)
+Theorem C18_atom_rbrace_refuted :
+  exists v, v <> [] /\ forallb rfc_astring_char v = true /\
+    parse_astring default_sparams [] (v ++ [SP]) = PFail /\
+    parse_astring default_sparams [] (print_quoted v ++ [SP]) = POk (v, print_quoted v) [SP] [].
+Proof. exact atom_rbrace_refuted. Qed.
+Print Assumptions C18_atom_rbrace_refuted.
+
 (* ===================== 2. strings: print / parse ========================== *)
 
 (* QuotedString: escaping of dquote and backslash; any value without CR/LF *)
@@ -232,3 +247,15 @@ Theorem C18_datetime_roundtrip : forall d k rest, wf_dt d = true ->
   parse_datetime (repeat SP k ++ print_datetime d ++ rest) = Some (d, print_datetime d, rest).
 Proof. exact datetime_roundtrip. Qed.
 Print Assumptions C18_datetime_roundtrip.
+
+(* The PARSED DateTime object serialises as dquote + its cached string value +
+   dquote.  Partial: it parses back to the same value PROVIDED the value holds
+   no dquote or backslash; that the date-time grammar admits neither is not
+   proved here (it is checked on every run by the monitor `datetime_reparse`). *)
+Theorem C18_parsed_datetime_reserialise_partial : forall b d raw rest,
+  parse_datetime b = Some (d, raw, rest) ->
+  (exists s, raw = DQUOTE :: s ++ [DQUOTE] /\
+     (forallb qsafe s = true ->
+      forall k rest', parse_datetime (repeat SP k ++ raw ++ rest') = Some (d, raw, rest'))).
+Proof. exact parsed_datetime_reserialise_partial. Qed.
+Print Assumptions C18_parsed_datetime_reserialise_partial.
